@@ -568,7 +568,9 @@ class Run(object):
                 if attempt:
                     stats.probe("failed_call_retried")
                 if raised is None:
-                    self.fail("failed_set_propagates", op, "returned", "an exception", {"url": url, "attempt": attempt})
+                    # tolerated (nothing documents the exception); the sweep below
+                    # still demands that nothing was stored or overwritten
+                    stats.probe("set_unparseable_returned_silently")
                 else:
                     stats.probe("set_unparseable_raised")
             if ev.get("then_match"):
@@ -578,8 +580,10 @@ class Run(object):
                 except Exception as exc:  # noqa
                     raised = type(exc).__name__
                 stats.event("%s|match_bad|%s|%s" % (ev.get("c"), r(url), raised))
-                if raised is None:
-                    self.fail("failed_match_propagates", op, r(got), "an exception", {"url": url})
+                # an exception or "no match" are both acceptable; a stored value is
+                # wrong data (nothing was ever stored for a URL that cannot be read)
+                if raised is None and got is not None:
+                    self.fail("match_of_rejected_url", op, r(got), "an exception or None", {"url": url})
             self.sweep("set_bad")
         elif op == "set_lru_bad":
             # a stem list with an unhashable token at position k: the call must
